@@ -2,6 +2,7 @@ package c15
 
 import (
 	"encoding/json"
+	"flag"
 	"fmt"
 	"os"
 	"sort"
@@ -101,7 +102,13 @@ func Main(args []string) int {
 	if explore.IsWorker(prop) {
 		return workerMain()
 	}
-	f := explore.ParseFlags(prop, args, nil)
+	var only string
+	f := explore.ParseFlags(prop, args, func(fs *flag.FlagSet) {
+		fs.StringVar(&only, "configs", "", "comma-separated configuration names to explore (default: all of the tier); for development and demos")
+	})
+	if only != "" {
+		os.Setenv("C15_CONFIGS", only) // inherited by the worker processes
+	}
 	if f.Replay != "" {
 		return replay(f.Replay)
 	}
@@ -133,7 +140,7 @@ func Main(args []string) int {
 	}
 	// configurations outside the tier are cut at the root by the worker (see execHist)
 	for _, c := range cs {
-		if !quick || c.Quick {
+		if (!quick || c.Quick) && selected(c.Name) {
 			active = append(active, c.Name)
 		}
 	}
@@ -150,7 +157,7 @@ func Main(args []string) int {
 	var never []string
 	perCfg := map[string]interface{}{}
 	for ci, c := range cs {
-		if quick && !c.Quick {
+		if (quick && !c.Quick) || !selected(c.Name) {
 			continue
 		}
 		acc := 0
@@ -196,6 +203,20 @@ func Main(args []string) int {
 		return 2
 	}
 	return rep.Finish()
+}
+
+// selected reports whether a configuration passes the -configs filter.
+func selected(name string) bool {
+	only := os.Getenv("C15_CONFIGS")
+	if only == "" {
+		return true
+	}
+	for _, n := range strings.Split(only, ",") {
+		if n == name {
+			return true
+		}
+	}
+	return false
 }
 
 // neverAcceptedByDesign: events that the statement (and the implementation) must always reject.
